@@ -1061,7 +1061,11 @@ impl Pr {
                 items.push(Item { v, lone_scope: true, triples: false });
             }
             match p {
-                P::Bgp(ts) => self.bgp(ts, next_is_triples, last, &mut items),
+                P::Bgp(ts) => {
+                    // a trailing `;` may also stand before a keyword-introduced or braced element
+                    let closes_block = last || matches!(g.get(i + 1), Some(e) if !matches!(e, P::Bgp(_)));
+                    self.bgp(ts, next_is_triples, closes_block, &mut items)
+                }
                 P::Group(inner) => {
                     self.sym("{");
                     let its = self.items(inner);
